@@ -62,6 +62,7 @@ pub fn eval(job: &Job) -> JobResult {
         "C02" | "C03" => eval_c02_c03(job),
         "C04" => eval_c04(job),
         "C05" => eval_c05(job),
+        "C06" => eval_c06(job),
         "C12" => crate::seqcheck::eval(job),
         "C13" => eval_c13(job),
         "C14" => eval_c14(job),
@@ -1221,5 +1222,85 @@ fn eval_c19(job: &Job) -> JobResult {
         }
     }
     res.sample = json!({"program": p.text(), "iterations": n, "longest_path": b, "threads": k, "variants_run": variants, "outcomes": full.outcomes.len()});
+    res
+}
+
+// ------------------------------------------------------------------------------------------
+// C06: a failing iteration fails the run, and only then (fault enumeration)
+// ------------------------------------------------------------------------------------------
+
+fn sentinel_program() -> Program {
+    use crate::ir::MO::*;
+    // store buffering + a mutex + a channel message: schedule and load branches, 3 threads
+    with_main(
+        "C06-sentinel",
+        Objs { atomics: vec![0, 0], mutexes: 1, chans: 1, ..Default::default() },
+        vec![],
+        vec![vec![st(0, 1, Rlx), K::Lock { m: 0 }.into(), ld(1, Rlx), K::Unlock { m: 0 }.into(), K::Send { ch: 0, v: 7 }.into()], vec![st(1, 1, Rlx), K::Lock { m: 0 }.into(), ld(0, Rlx), K::Unlock { m: 0 }.into()]],
+        vec![K::Recv { ch: 0 }.into()],
+        vec![],
+    )
+}
+
+fn sentinel_expectation() -> &'static Result<SeqReport, String> {
+    static CELL: std::sync::OnceLock<Result<SeqReport, String>> = std::sync::OnceLock::new();
+    CELL.get_or_init(|| fresh_process_seq(&sentinel_program(), &subject::Cfg::default()))
+}
+
+fn eval_c06(job: &Job) -> JobResult {
+    let p = &job.program;
+    let mut res = JobResult::default();
+    let sc = scm::explore(p, scm::Mode::explore(p), SC_MAX_STATES);
+    if sc.truncated {
+        res.machinery_error = Some("SC machine truncated".into());
+        return res;
+    }
+    res.states = sc.states;
+    res.transitions = sc.transitions;
+    let bad = sc.bad_kinds();
+    res.ref_outcomes = sc.done.len() as u64;
+    res.nontrivial = !sc.user_panics.is_empty();
+    let expect = match sentinel_expectation() {
+        Ok(e) => e.clone(),
+        Err(e) => {
+            res.machinery_error = Some(format!("sentinel fresh-process run failed: {}", e));
+            return res;
+        }
+    };
+    let (sum, col) = run_loom(p, &job.cfg, None);
+    res.loom_iterations = col.iters;
+    res.verdict = sum.verdict.short();
+    res.capped = sum.verdict == Verdict::Capped;
+    res.sample = json!({"program": p.text(), "reference_bad": bad, "loom_verdict": res.verdict, "loom_iterations": col.iters, "message": sum.message.lines().next().unwrap_or("")});
+    if res.capped {
+        return res;
+    }
+    let v = sum.verdict.short();
+    if bad.is_empty() {
+        if sum.verdict != Verdict::Ok {
+            res.violations.push(viol("failed_without_cause", v.clone(), "Ok: no iteration can fail".into(), sum.message.lines().next().unwrap_or("").to_string(), json!({})));
+        } else {
+            res.traces_validated += 1;
+        }
+    } else if bad.contains(&v) {
+        res.traces_validated += 1;
+        // the payload must carry the text of the failure
+        if let Verdict::User(tag) = sum.verdict {
+            if !sum.message.contains(&format!("{}{}", subject::USER_TAG, tag)) {
+                res.violations.push(viol("payload_lost", v.clone(), "the panic payload of the failing iteration".into(), sum.message.clone(), json!({})));
+            }
+        }
+    } else {
+        let kind = if sum.verdict == Verdict::Ok { "failure_swallowed" } else { "wrong_failure" };
+        res.violations.push(viol(kind, v.clone(), format!("one of {:?}", bad), sum.message.lines().next().unwrap_or("").to_string(), json!({"reference_witness": sc.witness})));
+    }
+    // a later model in the same process starts clean
+    let after = seq_report(&sentinel_program(), &subject::Cfg::default());
+    res.loom_iterations += after.sigs.len() as u64;
+    if after.sigs != expect.sigs || after.verdict != expect.verdict {
+        res.violations.push(viol("next_model_not_clean", v, "a later model run in the same process equals its fresh-process run".into(), first_diff(&expect.sigs, &after.sigs), json!({})));
+    } else {
+        res.traces_validated += after.sigs.len() as u64;
+    }
     res
 }
